@@ -23,7 +23,9 @@ use trace::{Trace, KINDS};
 
 pub const DEFAULT_SEED: u64 = 20261003;
 
-#[cfg(debug_assertions)]
+#[cfg(feature = "lowopt")]
+pub const PROFILE: &str = "lowopt";
+#[cfg(all(debug_assertions, not(feature = "lowopt")))]
 pub const PROFILE: &str = "checked";
 #[cfg(not(debug_assertions))]
 pub const PROFILE: &str = "release";
@@ -78,6 +80,8 @@ fn main() {
         "run" => cmd_run(&a),
         "merge" => cmd_merge(&a),
         "replay" => cmd_replay(&a),
+        "exec-one" => cmd_exec_one(&a),
+        "crash-report" => cmd_crash_report(&a),
         "determinism" => cmd_determinism(&a),
         "selftest" => cmd_selftest(),
         "show" => cmd_show(&a),
@@ -177,6 +181,7 @@ fn budget(prop: &str, tier: &str, seed: u64, scale: f64) -> Budget {
             random_runs = r(500_000, 300_000, 18_000_000, 18_000_000);
             sweeps.push(sweeps::c05_short_streams(!quick, !quick && checked));
             sweeps.push(sweeps::c05_base256_lengths(seed, if quick { 600 } else { 1600 }));
+            sweeps.push(sweeps::c05_base256_raw_length_pairs());
             sweeps.push(sweeps::c05_eci_charset_bytes());
             sweeps.push(sweeps::c05_eci_two_byte_designators(true));
             sweeps.push(sweeps::c05_eci_three_byte_designators(true));
@@ -227,6 +232,139 @@ fn budget(prop: &str, tier: &str, seed: u64, scale: f64) -> Budget {
     Budget { random_runs, sweeps, wall_cap_s: if quick { 240 } else { 3 * 3600 } }
 }
 
+/// The phases of a run, as a function of the command line (the crash report rebuilds exactly the same list).
+fn build_phases(a: &Args, prop: &str, tier: &str, seed: u64, scale: f64) -> Vec<Phase> {
+    let mut b = budget(prop, tier, seed, scale);
+    if let Some(n) = a.opts.get("runs").and_then(|s| s.parse::<u64>().ok()) {
+        b.random_runs = n;
+    }
+    if a.opts.contains_key("no-sweeps") {
+        b.sweeps.clear();
+    }
+    let mut phases: Vec<Phase> = Vec::new();
+    for mut s in b.sweeps {
+        s.wall_cap_s = b.wall_cap_s;
+        phases.push(s);
+    }
+    phases.push(Phase { source: Source::Random { prop: prop.to_string(), seed }, runs: b.random_runs, wall_cap_s: b.wall_cap_s });
+    if let Some(only) = a.opts.get("only-phase") {
+        phases.retain(|p| p.source.name().contains(only.as_str()));
+    }
+    phases
+}
+
+// ---------------- process aborts ----------------
+
+/// `dmsim exec-one <trace.json>`: execute one trace and return. Used as a CHILD process: a stack overflow, an
+/// allocation failure or a double panic kills the child, not the simulator.
+fn cmd_exec_one(a: &Args) -> i32 {
+    let path = match a.pos.first() {
+        Some(p) => p.clone(),
+        None => usage(),
+    };
+    let t = match std::fs::read_to_string(&path).map_err(|e| e.to_string()).and_then(|t| json::parse(&t)).and_then(|j| Trace::from_json(&j)) {
+        Ok(t) => t,
+        Err(e) => {
+            eprintln!("harness error: cannot read trace {}: {}", path, e);
+            return 2;
+        }
+    };
+    // on a thread like the simulator's workers (default stack size), not on the roomier main thread
+    let h = std::thread::spawn(move || {
+        let ctx = Ctx::new();
+        let o = execute(&ctx, &t, &runner::exec_opts_for(&t.prop));
+        o.violations.len()
+    });
+    match h.join() {
+        Ok(n) => {
+            println!("exec-one: returned ({} violation(s))", n);
+            0
+        }
+        Err(_) => 3,
+    }
+}
+
+/// Run `exec-one` on a trace in a child process; Some(description) if the child was killed by a signal.
+fn child_dies(t: &Trace, dir: &str, tag: &str) -> Option<String> {
+    let _ = std::fs::create_dir_all(dir);
+    let f = format!("{}/exec-one-{}-{}.json", dir, std::process::id(), tag);
+    if std::fs::write(&f, t.to_json().to_string_pretty()).is_err() {
+        return None;
+    }
+    let exe = std::env::current_exe().ok()?;
+    let st = std::process::Command::new(exe).arg("exec-one").arg(&f).stdout(std::process::Stdio::null()).stderr(std::process::Stdio::null()).status().ok()?;
+    let _ = std::fs::remove_file(&f);
+    use std::os::unix::process::ExitStatusExt;
+    match (st.signal(), st.code()) {
+        (Some(sig), _) => Some(format!("signal {}", sig)),
+        (None, Some(c)) if c >= 128 => Some(format!("exit status {}", c)),
+        _ => None,
+    }
+}
+
+/// `dmsim crash-report --prop P --tier T --crumbs DIR --replay-dir DIR`: after a run of the same command line died
+/// from a signal and was repeated with DMSIM_CRUMBS=DIR, find the run that kills the process (each worker's last
+/// breadcrumb is a candidate; each candidate is executed in a child process) and write its replay file.
+fn cmd_crash_report(a: &Args) -> i32 {
+    let prop = a.opts.get("prop").cloned().unwrap_or_else(|| usage());
+    let tier = a.opts.get("tier").cloned().unwrap_or_else(|| "quick".into());
+    let seed = a.opts.get("seed").and_then(|s| s.parse().ok()).unwrap_or_else(env_seed);
+    let scale: f64 = a.opts.get("scale").and_then(|s| s.parse().ok()).unwrap_or(1.0);
+    let crumbs = a.opts.get("crumbs").cloned().unwrap_or_else(|| usage());
+    let replay_dir = a.opts.get("replay-dir").cloned().unwrap_or_else(|| "/verif/replays".into());
+    let phases = build_phases(a, &prop, &tier, seed, scale);
+    let ctx = Arc::new(Ctx::new());
+    let mut cands: Vec<(usize, u64)> = Vec::new();
+    if let Ok(rd) = std::fs::read_dir(&crumbs) {
+        for e in rd.flatten() {
+            if let Ok(txt) = std::fs::read_to_string(e.path()) {
+                let mut it = txt.split_whitespace();
+                if let (Some(p), Some(i)) = (it.next().and_then(|x| x.parse::<usize>().ok()), it.next().and_then(|x| x.parse::<u64>().ok())) {
+                    if !cands.contains(&(p, i)) {
+                        cands.push((p, i));
+                    }
+                }
+            }
+        }
+    }
+    cands.sort();
+    let mut found = 0;
+    for (pi, i) in cands {
+        let phase = match phases.get(pi) {
+            Some(p) => p,
+            None => continue,
+        };
+        let (rs, trace) = phase.source.trace(&ctx, i);
+        if let Some(how) = child_dies(&trace, &replay_dir, &format!("{}-{}", pi, i)) {
+            let _ = std::fs::create_dir_all(&replay_dir);
+            let pname = phase.source.name();
+            let path = format!("{}/{}-{}-{}-{}-{}-abort.json", replay_dir, prop, PROFILE, seed, pname, i);
+            let rj = J::obj()
+                .with("property", J::s("C05"))
+                .with("class", J::s("process_abort"))
+                .with("detail", J::s(&format!("a consumer entry point killed the process ({}): stack overflow, allocation failure or abort - neither a value nor an error", how)))
+                .with("profile", J::s(PROFILE))
+                .with("verif_seed", J::Int(seed as i64))
+                .with("phase", J::s(&pname))
+                .with("run_index", J::Int(i as i64))
+                .with("run_seed", J::s(&format!("{:016x}", rs)))
+                .with("minimised", trace.to_json())
+                .with("original", trace.to_json());
+            if std::fs::write(&path, rj.to_string_pretty()).is_ok() {
+                println!("VIOLATION property=C05 replay={}", path);
+                println!("  class=process_abort detail={}", how);
+                found += 1;
+            }
+        }
+    }
+    if found > 0 {
+        1
+    } else {
+        eprintln!("harness error: the process died, but none of the runs in flight kills a child process on its own");
+        2
+    }
+}
+
 // ---------------- run ----------------
 
 fn env_seed() -> u64 {
@@ -272,31 +410,13 @@ fn cmd_run(a: &Args) -> i32 {
         }
     };
 
-    let mut b = budget(&prop, &tier, seed, scale);
-    if let Some(n) = a.opts.get("runs").and_then(|s| s.parse::<u64>().ok()) {
-        b.random_runs = n;
-        if a.opts.contains_key("no-sweeps") {
-            b.sweeps.clear();
-        }
-    }
-    if a.opts.contains_key("no-sweeps") {
-        b.sweeps.clear();
-    }
-    let mut phases: Vec<Phase> = Vec::new();
-    for mut s in b.sweeps {
-        s.wall_cap_s = b.wall_cap_s;
-        phases.push(s);
-    }
-    phases.push(Phase { source: Source::Random { prop: prop.clone(), seed }, runs: b.random_runs, wall_cap_s: b.wall_cap_s });
-    if let Some(only) = a.opts.get("only-phase") {
-        phases.retain(|p| p.source.name().contains(only.as_str()));
-    }
+    let phases = build_phases(a, &prop, &tier, seed, scale);
     let phase_desc: Vec<J> = phases
         .iter()
         .map(|p| J::obj().with("phase", J::s(&p.source.name())).with("planned_runs", J::Int(p.runs as i64)))
         .collect();
 
-    let cfg = RunCfg { workers, keep_log: a.opts.contains_key("log"), hang_ms, max_found: 64, stop_on_violation: !a.opts.contains_key("no-stop") };
+    let cfg = RunCfg { workers, keep_log: a.opts.contains_key("log"), hang_ms, max_found: 64, stop_on_violation: !a.opts.contains_key("no-stop"), crumbs: std::env::var("DMSIM_CRUMBS").ok().filter(|d| !d.is_empty()) };
     let (stats, hang) = run_phases(&ctx, phases_clone_guard(phases), &cfg, &prop);
     let wall = t0.elapsed().as_secs_f64();
 
@@ -751,6 +871,27 @@ fn cmd_replay(a: &Args) -> i32 {
     let class = j.get("class").and_then(|x| x.as_str()).unwrap_or("").to_string();
     let ctx = Arc::new(Ctx::new());
     let hang_ms = std::env::var("DMSIM_HANG_MS").ok().and_then(|s| s.parse().ok()).unwrap_or(120_000u64);
+    if class == "process_abort" {
+        let t = match j.get("minimised").map(Trace::from_json) {
+            Some(Ok(t)) => t,
+            _ => {
+                eprintln!("harness error: replay file has no trace");
+                return 2;
+            }
+        };
+        let dir = std::env::temp_dir().to_string_lossy().to_string();
+        return match child_dies(&t, &dir, "replay") {
+            Some(how) => {
+                println!("minimised trace: REPRODUCED property={} class=process_abort ({})", prop, how);
+                println!("VIOLATION property={} replay={}", prop, path);
+                1
+            }
+            None => {
+                println!("minimised trace: NOT reproduced; the child process returned normally");
+                0
+            }
+        };
+    }
     let mut reproduced_all = true;
     let mut any = false;
     for which in ["minimised", "original"] {
